@@ -2042,7 +2042,7 @@ def check_c17(tier, replay):
         "counters": {"upload": s_up["counters"], "files": s_f["counters"]},
     }
     assumptions = ["settle time %ss per step (VERIF_SETTLE_SECS): a set that is still wrong after it is reported"
-                   % os.environ.get("VERIF_SETTLE_SECS", "25"),
+                   % os.environ.get("VERIF_SETTLE_SECS", "40"),
                    "only the first device edits; the second device syncs (the quantifier of the property)",
                    "file-system backend on both sides for the blob comparison"]
     vlib.write_evidence(prop, tier, "model_checking", cover, assumptions, time.time() - t0, len(violations))
